@@ -181,7 +181,7 @@ class FormulaParser(Parser):
             else:
                 p[0] = p[1] + [None]
         elif p[2] == ';':
-            if p[3] == ';':
+            if len(p) == 5:  # ... SEMICOLON SEMICOLON expression (p[3] may be any value otherwise)
                 p[0] = p[1] + [None, p[4]]
             else:
                 if str(p.slice[1]) in ('expseqcomma', 'expseqbackslash'):
@@ -209,7 +209,7 @@ class FormulaParser(Parser):
                 p[0] = p[1] + [None]
         elif p[2] == ',':
             # expseqcomma COMMA COMMA expression
-            if p[3] == ',':  # e.g. an empty function argument
+            if len(p) == 5:  # e.g. an empty function argument (p[3] may be any value otherwise)
                 p[0] = p[1] + [None, p[4]]
             else:
                 p[0] = p[1] + [p[3]]
@@ -233,7 +233,7 @@ class FormulaParser(Parser):
             else:
                 p[0] = p[1] + [None]
         elif p[2] == '\\':
-            if p[3] == '\\':
+            if len(p) == 5:  # ... BACKSLASH BACKSLASH expression (p[3] may be any value otherwise)
                 p[0] = p[1] + [None, p[4]]
             else:
                 p[0] = p[1] + [p[3]]
